@@ -8,8 +8,9 @@ package h7join
 import (
 	"encoding/json"
 	"fmt"
-	"os"
+	"github.com/ozontech/file.d/pipeline/doif"
 	"math/rand/v2"
+	"os"
 	"regexp"
 	"sort"
 	"strconv"
@@ -57,7 +58,8 @@ type Cfg struct {
 	Capacity     int           `json:"capacity"`
 	Pool         string        `json:"pool"`
 	Readers      [][]Line      `json:"readers"`
-	MatchLvl     string        `json:"match_lvl,omitempty"` // the action is applied only to events with lvl == this value
+	MatchLvl     string        `json:"match_lvl,omitempty"`   // the action is applied only to events with lvl == this value
+	MatchDoIf    bool          `json:"match_do_if,omitempty"` // the condition is given as do_if instead of match_fields
 }
 
 func (c *Cfg) SimCfg() *simrt.Config { return &c.Sim }
@@ -112,6 +114,7 @@ func (h *H) Gen(rng *rand.Rand, tier, prop string) core.Cfg {
 	}
 	if c.Action != "k8s" && core.Chance(rng, 0.25) {
 		c.MatchLvl = "e"
+		c.MatchDoIf = core.Chance(rng, 0.5)
 	}
 	nReaders := core.Between(rng, 1, 3)
 	nSources := core.Between(rng, nReaders, nReaders+1)
@@ -228,20 +231,20 @@ func (inPlugin) Commit(*pipeline.Event)                                {}
 func (inPlugin) PassEvent(*pipeline.Event) bool                        { return true }
 
 type outRec struct {
-	id  int
-	msg string
-	has bool
+	id   int
+	msg  string
+	has  bool
 	step int
 }
 
 type sinkOut struct {
-	ctl  pipeline.OutputPluginController
-	outs []outRec
+	ctl   pipeline.OutputPluginController
+	outs  []outRec
 	field string
 }
 
 func (s *sinkOut) Start(_ pipeline.AnyConfig, p *pipeline.OutputPluginParams) { s.ctl = p.Controller }
-func (s *sinkOut) Stop()                                                       {}
+func (s *sinkOut) Stop()                                                      {}
 func (s *sinkOut) Out(e *pipeline.Event) {
 	r := outRec{id: -1, step: simrt.Steps()}
 	// decode the encoded event with an independent parser (and without touching the nodes)
@@ -264,10 +267,10 @@ func (s *sinkOut) Out(e *pipeline.Event) {
 }
 
 type obs struct {
-	line   Line
-	callT  time.Duration
-	retT   time.Duration
-	seq    uint64
+	line  Line
+	callT time.Duration
+	retT  time.Duration
+	seq   uint64
 }
 
 var seq int
@@ -339,7 +342,13 @@ func (h *H) Run(cc core.Cfg, sim *simrt.Sim) *core.Outcome {
 			}
 			info.Config = conf
 			info.Factory = static.Factory
-			if cfg.MatchLvl != "" {
+			if cfg.MatchLvl != "" && cfg.MatchDoIf {
+				ch, err := doif.NewFromMap(map[string]any{"op": "equal", "field": "lvl", "values": []any{cfg.MatchLvl}})
+				if err != nil {
+					panic(err)
+				}
+				info.DoIfChecker = ch
+			} else if cfg.MatchLvl != "" {
 				info.MatchConditions = pipeline.MatchConditions{{Field: []string{"lvl"}, Values: []string{cfg.MatchLvl}}}
 				info.MatchMode = pipeline.MatchModeAnd
 			}
@@ -454,7 +463,9 @@ func (h *H) check(cfg *Cfg, all []*obs, outs []outRec, o *core.Outcome) {
 	for k := range ins {
 		keys = append(keys, k)
 	}
-	sort.Slice(keys, func(i, j int) bool { return keys[i].src < keys[j].src || keys[i].src == keys[j].src && keys[i].stream < keys[j].stream })
+	sort.Slice(keys, func(i, j int) bool {
+		return keys[i].src < keys[j].src || keys[i].src == keys[j].src && keys[i].stream < keys[j].stream
+	})
 	cl := newClassifier(cfg)
 	nontrivial := false
 	for _, k := range keys {
